@@ -93,7 +93,9 @@ func (q *DetQueue) AddAfter(item interface{}, d time.Duration) {
 		q.Add(item)
 		return
 	}
-	deadline := q.RealNow().Add(d).Round(10 * time.Millisecond)
+	// every virtual instant in a simulation is a whole second (API timestamps, scripted
+	// times and the back-off below), so rounding to the second absorbs any wall-clock jitter
+	deadline := q.RealNow().Add(d).Round(time.Second)
 	vnow := q.Now()
 	if d < 365*24*time.Hour {
 		// A genuinely relative delay (not derived from a virtual deadline, which would be
@@ -125,10 +127,13 @@ func (q *DetQueue) AddRateLimited(item interface{}) {
 	if n+1 > q.MaxRequeue {
 		q.MaxRequeue = n + 1
 	}
+	// client-go's per-item back-off is 5ms * 2^n capped at 1000s; rounded up to whole
+	// virtual seconds here so that all timers stay on second boundaries
 	d := 5 * time.Millisecond << uint(n)
 	if n > 30 || d > 1000*time.Second || d <= 0 {
 		d = 1000 * time.Second
 	}
+	d = (d + time.Second - 1) / time.Second * time.Second
 	q.addDelayed(item, q.Now().Add(d), "ratelimited")
 }
 func (q *DetQueue) Forget(item interface{})          { delete(q.requeues, item) }
